@@ -14,7 +14,8 @@ EXCLUSIONS (the numbering E1..E16 and the reasons are in the header of spec/Lex.
 lives in this file):
   E1  opaque text ........ scan(): operand of a string-taking / unknown directive -> one "blob" token; tokenize():
                            a statement with anything not understood -> one "junk" token; Ctx.opq(), Ctx.gap_blocked()
-  E2  char literals ...... scan(): 'c "cc ^Rccc are "str" tokens; en_caseflip() never accepts "str"
+  E2  char literals ...... scan(): 'c "cc ^Rccc are "str" tokens; en_caseflip() accepts a "str" only if it consists of
+                           escapes with a letter ('\n "\x1b\t: s = 1, identity taken from the lower-case text)
   E3  trivia ............. en_trivia(): blanks between tokens only (tokens are atomic), '; comment' only before a new
                            line, blank line only next to a new line
   E4  Radix / branch ..... en_radix(): stmt_kind == "br"            E5  label '1:' ... en_radix(): next token is ':'
@@ -325,7 +326,7 @@ def scan(text):
                 e = _string_char(text, e)
             if e < n and text[e] == "'":
                 e += 1
-            emit(Tok("str", pos, e, text[pos:e], v=_stable_id(text[pos:e])), junk=two or any(c in text[pos:e] for c in "\n\t\r"))
+            emit(_char_literal(text, pos, e), junk=two or any(c in text[pos:e] for c in "\n\t\r"))
             pos = e
             continue
         if ch == '"':
@@ -335,7 +336,7 @@ def scan(text):
                     e = _string_char(text, e)
             if e < n and text[e] == '"':
                 e += 1
-            emit(Tok("str", pos, e, text[pos:e], v=_stable_id(text[pos:e])), junk=two or any(c in text[pos:e] for c in "\n\t\r"))
+            emit(_char_literal(text, pos, e), junk=two or any(c in text[pos:e] for c in "\n\t\r"))
             pos = e
             continue
         if ch == "^":
@@ -502,6 +503,18 @@ def _name_token(name, pos, intern):
     return Tok("sym", pos, pos + len(name), name, v=intern(name),
                s=1 if name[0] == "_" else (2 if ("$" in name or "." in name) else 0), u=case_of(name),
                a=1 if reserved else 0)
+
+
+_ESC_ONLY = re.compile(r"""(?:'|")(?:\\(?:[xX][0-9a-fA-F]{2}|[ntrNTR]))+(?:'|")?\Z""")
+
+
+def _char_literal(text, pos, e):
+    """'c / "cc token.  A literal made of escapes only ('\\n "\\x1b\\t) carries no content letters: its letters are spelling
+    (s = 1, identity from the lower-case text, CaseFlip may respell it); any other literal is kept as it is (E2)."""
+    lit = text[pos:e]
+    if _ESC_ONLY.match(lit) and any(c.isalpha() for c in lit):
+        return Tok("str", pos, e, lit, v=_stable_id(lit.lower()), s=1, u=case_of(lit))
+    return Tok("str", pos, e, lit, v=_stable_id(lit))
 
 
 def _string_char(text, e):
@@ -755,6 +768,8 @@ class Ctx:
             return x["s"] >= 2
         if k == "loc":
             return x["a"] == 1
+        if k == "str":
+            return x["s"] == 1                   # E2: escapes only
         if k == "op":
             return x["v"] == OP_IDS["^c"]        # the one operator spelled with a letter
         return False
